@@ -27,6 +27,7 @@ class Sched:
         self.n = {t: var('n_%d' % t, PW) for t in range(1, T + 1)}
         self.fixed_c = None
         self.missing = 0
+        self._sorted = {}
 
     def posvar(self, t, key):
         v = self.pos.get(key)
@@ -34,14 +35,31 @@ class Sched:
             if self.posmap is not None:
                 v = self.posmap.get(key)
                 if v is None:
-                    # operation not seen by the ranking run: keep going with a placeholder, the caller re-ranks and re-runs
                     self.missing += 1
-                    v = var('pos_%d_x%d' % (t, self.missing), PW)
+                    if getattr(self.m, 'allow_missing', False):
+                        # concrete replay met an operation the symbolic run never ranked (e.g. a loop spinning beyond the
+                        # unrolled iterations): give it the position of its successor in key order
+                        import bisect
+                        sk = self._sorted.get(t)
+                        if sk is None:
+                            sk = self._sorted[t] = sorted(k for k in self.posmap if isinstance(k, tuple) and k and k[0] != 'n' and self._tid_of(k) == t)
+                        i = bisect.bisect(sk, key)
+                        v = self.posmap[sk[i]] if i < len(sk) else self.posmap[('n', t)]
+                    else:
+                        # operation not seen by the ranking run: keep going with a placeholder, the caller re-ranks and re-runs
+                        v = var('pos_%d_x%d' % (t, self.missing), PW)
                 self.pos[key] = v
             else:
                 v = self.pos[key] = var('pos_%d_%d' % (t, len(self.keys[t])), PW)
             self.keys[t].append(key)
         return v
+
+    @staticmethod
+    def _tid_of(k):
+        h = k[0]
+        if isinstance(h, tuple) and h and h[0] == 'e': return h[2]
+        if isinstance(h, tuple) and h and h[0] == 'x': return h[1]
+        return None
 
     def window(self, t, r):
         lo = self.c[t][r - 1]; hi = self.c[t][r]
@@ -137,9 +155,11 @@ def replay(sc, model, violation):
     from . import scenario as S
     fixed = {int(k[3:]): v for k, v in model.items() if k.startswith('nd_') and k[3:].isdigit()}
     sched = {k: v for k, v in model.items() if k.startswith('cs_')}
-    m, mod, tm = S.execute(sc, fixed=fixed, fixed_sched=sched)
+    named = {k: v for k, v in model.items() if k.startswith('rdtsc_')}
+    m, mod, tm = S.execute(sc, fixed=fixed, fixed_sched=sched, fixed_named=named)
     if violation['kind'] == 'progress':
-        hits = [w for g, w in m.unwound if g is True]
+        # with everything concrete a non-terminating loop runs into the iteration cap (its continuation is decided concretely)
+        hits = [w for g, w in m.unwound if g is True or (g is not False and '[iteration cap' in w)]
         return {'reproduced': bool(hits), 'how': ('concrete re-execution under schedule %s: the operation is still looping after the unrolled iterations (%s)' % (sched, hits[0][-80:])) if hits else 'not reproduced', 'output': '; '.join(hits[:2])}
     hits = [ob.where for ob in m.obligations if ob.cond is True and ob.kind == violation['kind']]
     same = [w for w in hits if w == violation['where']]
